@@ -2,8 +2,8 @@
 # sweep.sh TIER SEED... : unchanged-tree sweep of all 20 checks for several VERIF_SEED values; evidence kept aside.
 tier=$1; shift
 cd /verif
-rm -rf /tmp/evidence.keep.$$; cp -r /verif/evidence /tmp/evidence.keep.$$
-trap 'rm -rf /verif/evidence; cp -r /tmp/evidence.keep.$$ /verif/evidence; rm -rf /tmp/evidence.keep.$$' EXIT
+export VERIF_EVIDENCE=/tmp/evidence.eval.$$   # evidence of these runs is scratch
+trap 'rm -rf /tmp/evidence.eval.$$' EXIT
 for seed in "$@"; do
   for n in 01 02 03 04 05 06 07 08 09 10 11 12 13 14 15 16 17 18 19 20; do
     out=$(VERIF_SEED=$seed ./check C$n $tier 2>&1); rc=$?
